@@ -11,6 +11,7 @@ import (
 	"storj.io/drpc"
 
 	"verif/engine/sched"
+	"verif/engine/vs"
 )
 
 // Bytes is the encoding; messages are *[]byte.
@@ -82,4 +83,32 @@ func Verify(b []byte) (tag, dir, seq byte, err error) {
 		return 0, 0, 0, fmt.Errorf("payload checksum mismatch (altered): %x", b)
 	}
 	return b[0], b[1], b[2], nil
+}
+
+// Gate is a harness-controlled latch: user code parks at Wait until Open.
+type Gate struct {
+	mon     vs.Monitor
+	open    bool
+	Waiting int // callers that have arrived at the gate (open or not)
+}
+
+// Wait parks the caller until the gate is open.
+func (g *Gate) Wait() {
+	g.mon.Do("gate.arrive", nil, func() { g.Waiting++ })
+	g.mon.Do("gate.wait", func() bool { return g.open }, func() {})
+}
+
+// Open releases current and future waiters.
+func (g *Gate) Open() { g.mon.Do("gate.open", nil, func() { g.open = true }) }
+
+// Slow is Bytes whose Marshal parks at a gate first: user-supplied encoders may be
+// arbitrarily slow, which lets a scenario hold a call inside its marshalling step.
+type Slow struct {
+	Bytes
+	G *Gate
+}
+
+func (s Slow) Marshal(msg drpc.Message) ([]byte, error) {
+	s.G.Wait()
+	return s.Bytes.Marshal(msg)
 }
